@@ -42,7 +42,7 @@ RE_SANITIZE_SKIP = re.compile(
 )
 RE_SANITIZE_RUSSIAN = re.compile(r"([\W\d])\u0433\.", flags=re.I | re.U)
 RE_SANITIZE_CROATIAN = re.compile(
-    r"(\d+)\.\s?(\d+)\.\s?(\d+)\.(\s+u)?", flags=re.I | re.U
+    r"(\d+)\.\s*(\d+)\.\s*(\d+)\.(\s+u)?", flags=re.I | re.U
 )
 RE_SANITIZE_PERIOD = re.compile(r"(?<=[^\d\s])\.", flags=re.U)
 RE_SANITIZE_ON = re.compile(r"^.*?on:\s+(.*)")
